@@ -19,7 +19,7 @@ Inductive finput := ISourceGraphic | ISourceAlpha | IRef (name : N).
 
 Inductive node :=
 | NGroup (g : group)
-| NPath (id : N) (fill stroke : paint)                    (* Path: id, fill.paint, stroke.paint *)
+| NPath (id : N) (vis : bool) (fill stroke : paint)       (* Path: id, visible, fill.paint, stroke.paint *)
 | NImage (id : N) (sub : option group)                    (* ImageKind::SVG(tree) => Some tree.root *)
 | NText (id : N) (flat : group) (chunks : list chunk)     (* Text: id, flattened, chunks *)
 with group :=     (* styled: blend_mode != Normal || isolate (the writer then emits one `style` attribute) *)
@@ -75,7 +75,7 @@ Definition is_pat (p : paint) := match p with PPat _ _ _ => true | _ => false en
 Definition is_server (p : paint) := is_lin p || is_rad p || is_pat p.
 (* Node::id *)
 Definition node_id (n : node) : N :=
-  match n with NGroup g => g_id g | NPath i _ _ => i | NImage i _ => i | NText i _ _ => i end.
+  match n with NGroup g => g_id g | NPath i _ _ _ => i | NImage i _ => i | NText i _ _ => i end.
 
 (* ---------------------------------------------------------------- chains *)
 Fixpoint clip_chain (c : clipdef) : list clipdef :=
@@ -97,7 +97,7 @@ Definition paint_root (p : paint) : list group := match p with PPat _ _ r => [r]
 Definition node_subroots (n : node) : list group :=
   match n with
   | NGroup g => group_subroots g
-  | NPath _ f s => paint_root f ++ paint_root s
+  | NPath _ _ f s => paint_root f ++ paint_root s
   | NImage _ sub => olist sub
   | NText _ flat _ => [flat]
   end.
@@ -116,7 +116,7 @@ Section Walk.
     | NGroup g =>
         let a := f n a in
         if sub_first then walk_group g (walk_gsub g a) else walk_gsub g (walk_group g a)
-    | NPath _ fl st => walk_paint st (walk_paint fl (f n a))
+    | NPath _ _ fl st => walk_paint st (walk_paint fl (f n a))
     | NImage _ sub => let a := f n a in match sub with Some r => walk_group r a | None => a end
     | NText _ flat _ => walk_group flat (f n a)
     end
@@ -176,7 +176,12 @@ Definition push_all {D} (ptr : D -> N) (ds : list D) (l : list D) : list D :=
      collect_clip_paths:  `if let Node::Group(g) = node { walk g.clip_path chain, push each }`
      collect_masks:       same over g.mask
      collect_filters:     `for filter in g.filters() { push }`
-     collect_paint_servers (per kind `sel`): `Node::Path(p) => { push(fill.paint); push(stroke.paint) }` *)
+     collect_paint_servers (per kind `sel`): `Node::Path(p) => { push(fill.paint); push(stroke.paint) }`
+       - the arm has no guard: `path.visible` is NOT consulted.  A visibility=hidden/collapse path stays in the
+         tree with its fill and stroke (parser/converter.rs::convert_path only clears `visible`), the writer emits
+         its `fill="url(#id)"`, so its paint servers must be in the collections like those of any other path
+         (Gen/CollectTables.v re-derives the arm list of loop_over_paint_servers from the source; see
+         Proofs/Collect.v `paint_loop_arms_as_modelled`). *)
 Definition node_clips (n : node) : list clipdef :=
   match n with NGroup g => ochain clip_chain (g_clip g) | _ => [] end.
 Definition node_masks (n : node) : list maskdef :=
@@ -184,7 +189,9 @@ Definition node_masks (n : node) : list maskdef :=
 Definition node_filters (n : node) : list filterdef :=
   match n with NGroup g => g_filters g | _ => [] end.
 Definition node_paints (sel : paint -> bool) (n : node) : list paint :=
-  match n with NPath _ fl st => filter sel [fl; st] | _ => [] end.
+  match n with NPath _ _vis fl st => filter sel [fl; st] | _ => [] end.
+(* Path::is_visible *)
+Definition path_hidden (n : node) : bool := match n with NPath _ v _ _ => negb v | _ => false end.
 
 Definition collect_defs {D} (ptr : D -> N) (defs : node -> list D) (sub_first : bool)
     (root : group) (acc : list D) : list D :=
@@ -226,7 +233,7 @@ Definition tree_node_by_id (t : tree) (i : N) : option node :=
 Fixpoint all_node (n : node) {struct n} : list node :=
   n :: match n with
        | NGroup g => all_group g ++ all_gdefs g
-       | NPath _ fl st => all_paint fl ++ all_paint st
+       | NPath _ _ fl st => all_paint fl ++ all_paint st
        | NImage _ sub => match sub with Some r => all_group r | None => [] end
        | NText _ flat _ => all_group flat
        end
